@@ -121,6 +121,16 @@ def check_valid(pc, formula, want_model=True, timeout_ms=None, second_backend=Tr
     query of the proving stage).  Agreement is recorded in the backend name ('z3+cvc5'); cvc5 finding that query
     satisfiable is a checker error (one of the solvers or the encoding is wrong), never a silent pass."""
     st, be, secs, model, solver = _check_valid(pc, formula, want_model, timeout_ms, second_backend)
+    if st == 'failed' and model is not None:
+        # safety net for the preprocessing: the counter-model must satisfy the ORIGINAL path condition and falsify the
+        # ORIGINAL goal; otherwise nothing has been refuted (undecided)
+        try:
+            ok = all(not z3.is_false(model.eval(f, model_completion=True)) for f in pc) and \
+                not z3.is_true(model.eval(formula, model_completion=True))
+        except z3.Z3Exception:
+            ok = True
+        if not ok:
+            st, be, model = 'unknown', be + ' (counter-model rejected by the original query)', None
     if os.environ.get('PYVC_CROSS') and st == 'proved' and be == 'z3':
         t0 = time.time()
         try:
@@ -140,9 +150,76 @@ def check_valid(pc, formula, want_model=True, timeout_ms=None, second_backend=Tr
     return st, be, secs, model, solver
 
 
+def _fold_decided_ites(e):
+    """replace If(true, a, b) by a and If(false, a, b) by b, nothing else (no normalisation of the surrounding term: the axiom
+    instantiation and the split hints work on the syntactic shape the interpreter produced)"""
+    for _ in range(6):
+        todo, seen, stack = [], set(), [e]
+        while stack:
+            x = stack.pop()
+            if x.get_id() in seen:
+                continue
+            seen.add(x.get_id())
+            if z3.is_app(x):
+                if x.decl().kind() == z3.Z3_OP_ITE and (z3.is_true(x.arg(0)) or z3.is_false(x.arg(0))):
+                    todo.append((x, x.arg(1) if z3.is_true(x.arg(0)) else x.arg(2)))
+                stack.extend(x.children())
+        if not todo:
+            return e
+        e = z3.substitute(e, *todo)
+    return e
+
+
+def propagate_units(pc, formula):
+    """Atoms that the path condition has decided (the atom, or its negation, is one of its conjuncts) are replaced by true/false
+    inside `If(c, a, b)` conditions of the other conjuncts and of the goal, and the decided `If`s are folded away.  Everything
+    else is left syntactically untouched.  The specification functions are unfolded on the *syntactic* concat structure of their
+    arguments; an `If` whose condition the path has already decided hides that structure."""
+    def is_atom(e):
+        if not z3.is_bool(e) or not z3.is_app(e) or z3.is_true(e) or z3.is_false(e):
+            return False
+        k = e.decl().kind()
+        return k not in (z3.Z3_OP_AND, z3.Z3_OP_OR, z3.Z3_OP_NOT, z3.Z3_OP_IMPLIES, z3.Z3_OP_ITE, z3.Z3_OP_XOR)
+    units = {}
+    for f in pc:
+        if z3.is_not(f) and is_atom(f.arg(0)):
+            units[f.arg(0).get_id()] = (f.arg(0), z3.BoolVal(False))
+        elif is_atom(f):
+            units[f.get_id()] = (f, z3.BoolVal(True))
+    if not units:
+        return pc, formula
+
+    def ite_conditions(e):
+        out, seen, stack = {}, set(), [e]
+        while stack:
+            x = stack.pop()
+            if x.get_id() in seen:
+                continue
+            seen.add(x.get_id())
+            if z3.is_app(x):
+                if x.decl().kind() == z3.Z3_OP_ITE and x.arg(0).get_id() in units:
+                    c = x.arg(0)
+                    out[x.get_id()] = (x, x.arg(1) if z3.is_true(units[c.get_id()][1]) else x.arg(2))
+                stack.extend(x.children())
+        return list(out.values())
+
+    def rewrite(e):
+        for _ in range(6):
+            subs = ite_conditions(e)
+            if not subs:
+                return e
+            e = z3.substitute(e, *subs)
+        return e
+    return [rewrite(f) for f in pc], rewrite(formula)
+
+
 def _check_valid(pc, formula, want_model=True, timeout_ms=None, second_backend=True):
     """Is `formula` valid under the assumptions `pc`?  Returns (status, backend, seconds, model, solver)."""
     t0 = time.time()
+    try:
+        pc, formula = propagate_units(list(pc), formula)
+    except z3.Z3Exception:
+        pass
     neg = z3.Not(formula)
     fs = list(pc) + [neg]
     # stage A: only the first unfolding round (and the lemma instances): many obligations are already propositional
